@@ -58,6 +58,28 @@ TEXTS = {
          "The whole product 32 flag subsets x 8 widths x 6 precisions x 58 verbs is executed under fmt's State and redact's printer (Formatter and SafeFormatter entry); state after re-printing with the reproduced format must equal the original state; MakeFormat is compared with fmt.FormatString; Safe/Unsafe/forwarder fidelity under fmt for 19 operands x the product. Exhaustive in both tiers (quick thins widths/precisions for the operand product only).",
          "The reference is this sandbox's fmt (Go 1.23.5).", "5/C14"),
 }
+
+# sections added after the seeded rounds (appended to the level text of each check)
+ADDED = {
+ "C01": " Later additions: 2-/3-directive formats with explicit indexes and star widths; systematic size families (operand/directive counts, container sizes, widths, nesting, Join lists 0..70); StringBuilder calls as transitions of the buffer state search; re-entrant user methods and values longer than 64 bytes in the universe.",
+ "C02": " Later additions: indexed multi-directive formats, adjacent directives without separator, size families 0..70, Formatter values writing through io.WriteString, re-entrant methods.",
+ "C03": " Later additions: as C01.",
+ "C04": " Later additions: 2-/3-directive formats with explicit indexes/star widths/precisions (per-directive parser state), adjacent directives followed by a line feed, size families 0..70 (operands, directives, slices, maps, string lengths, widths, nesting depth).",
+ "C05": " Later additions: containers wrapped in Safe(), unsafe Formatter leaves (Fprintf and io.WriteString routes).",
+ "C06": " Later additions: re-entrant and long values in the universe.",
+ "C07": " Later additions: alphabet widened to U+FFFD, a 2-byte and a 4-byte rune, the runes adjacent to the markers (U+2038, U+203B) and byte 0xBA; all library outputs of directives x universe; result-aliasing oracle (byte-slice results kept and re-compared after later calls); accessor isolation (writing into the slices returned by Start/End/RedactedMarker must change nothing).",
+ "C08": " Later additions: holders under a Safe override (Safe(container), SafeValue structs, SafeFormatters printing the redactable), Join/JoinTo list lengths 0..70.",
+ "C09": " Later additions: the empty payload in the quick alphabet; StringBuilder calls (SafeByte/UnsafeByte/SafeRune/.../Print/Printf) as transitions of the state search with their own step invariants.",
+ "C10": " Later additions: an extended alphabet with the neighbour bytes of every marker byte (0xB8, 0xBB, 0x81, 0xE1, 0xE3), other lead bytes and the cross; result-aliasing oracle.",
+ "C11": " Later additions: every universe value x quick directives through 6 entry points (a call may panic only if fmt panics too); text AFTER a caught panic inside slices/structs/maps compared with a well-behaved element in the same place under 12 width/precision/flag directives.",
+ "C12": " Later additions: 41 calls (SafeFormatter/SafeMessager/SafeValue types with and without Unsafe, re-entrant and yielding writers); histories of up to 2 (quick) / 3 (thorough) calls are explored WITHOUT merging on the pool state so that cross-call state kept outside the pool shows; thorough goes to 4 calls and deviation budget 3; a result that differs between two cold-pool runs is itself a violation.",
+ "C13": " Later additions: StringBuilder calls in the state search.",
+ "C14": " Later additions: the state a formatter sees must not depend on a preceding directive of the same format (8 preceding directives x the whole product) nor on preceding elements of the same operand (7 containers x the whole product), under fmt and under redact's printer.",
+ "C15": " Later additions: a literal letter w token (so that '%%w' occurs), K2 class repaired.",
+ "C16": " Later additions: a writer that formats with the library before consuming its input (mode 5 of the F-variant check).",
+ "C17": " Later additions: error values of integer, string and slice kind; a multi-operand section (13 kinds of preceding operands/directives x errors x positions x 9 verbs).",
+}
+
 CLAIMED_IDS = ["C01", "C02", "C03", "C04", "C05", "C06", "C07", "C08", "C09", "C10", "C11", "C12", "C13", "C14", "C15", "C16", "C17"]
 CLAIMED = {k: TEXTS[k] for k in CLAIMED_IDS}
 
@@ -76,7 +98,7 @@ for pid in ALL:
         "evidence_file": "/verif/evidence/%s.json" % pid,
         "replay_cmd_template": "./check %s quick --replay {path}" % pid,
         "engine": "verifh",
-        "level_claimed": {"category": "model_checking", "text": text, "design_ref": "DESIGN.md section " + ref},
+        "level_claimed": {"category": "model_checking", "text": text + ADDED.get(pid, ""), "design_ref": "DESIGN.md section " + ref},
         "level_note": note,
         "technique": tech,
     })
